@@ -190,8 +190,13 @@ package pullapi
 //@   ensures !result1 ==> respStatus != 0 && respStatus != 204 && respStatus != 200
 //@   ensures result1 ==> respStatus == old(respStatus)
 //@ func normalizeLeaseIDs
-//@   trusted
+//@   loop 1 invariant [seen_is_out] seen != nil && rangeindex < len(req.LeaseIDs) && len(out) <= rangeindex + 1 && (forall k string :: k in seen <==> exists j int :: 0 <= j && j < len(out) && out[j] == k)
+//@   loop 1 invariant [clean_distinct_from_the_request] (forall j int :: 0 <= j && j < len(out) ==> out[j] != "" && exists i int :: 0 <= i && i <= rangeindex && trim(req.LeaseIDs[i]) == out[j]) && (forall j int, k int :: 0 <= j && j < k && k < len(out) ==> out[j] != out[k])
+//@   loop 1 invariant [complete] forall i int :: 0 <= i && i <= rangeindex && trim(req.LeaseIDs[i]) != "" ==> trim(req.LeaseIDs[i]) in seen
 //@   ensures result2 == "" && !result1 ==> len(result0) == 1
+//@   ensures [C04:a_single_lease_request_names_exactly_that_lease] result2 == "" && !result1 ==> result0[0] == trim(req.LeaseID) && result0[0] != ""
+//@   ensures [C04:a_batch_names_exactly_the_distinct_non_empty_lease_ids_sent] result2 == "" && result1 ==> len(result0) >= 1 && (forall j int :: 0 <= j && j < len(result0) ==> result0[j] != "" && exists i int :: 0 <= i && i < len(req.LeaseIDs) && trim(req.LeaseIDs[i]) == result0[j]) && (forall j int, k int :: 0 <= j && j < k && k < len(result0) ==> result0[j] != result0[k]) && (forall i int :: 0 <= i && i < len(req.LeaseIDs) && trim(req.LeaseIDs[i]) != "" ==> exists j int :: 0 <= j && j < len(result0) && result0[j] == trim(req.LeaseIDs[i]))
+//@   ensures [C04:an_oversized_batch_is_refused] result2 == "" && result1 && maxBatch > 0 ==> len(result0) <= maxBatch
 //@ func mapLeaseBatchConflicts
 //@   trusted
 //@   ensures len(result) == len(conflicts)
